@@ -4108,6 +4108,8 @@ static const ProbeDef kProbes[] = {
   { "and-reg-zero", AV_AND_ZERO, false, "and reg, 0 is treated as not changing the register" },
   { "same-reg-idiom-narrow-vector", AV_SAMEREG_NARROW_VEC, false, "vpminud/vpand/... xmm,xmm,xmm with one 256-bit virtual register is treated as read-only although it clears the upper half" },
   { "a64-tbl-register-list", AV_A64_TBL_MULTI, false, "AArch64 tbl/tbx with a table of 2..4 registers: the allocator does not know that the table registers must be consecutive" },
+  { "vpternlog-merge-masked", AV_TERN_MASKED, true, "vpternlogd v{k},v,v,0xFF / 0x00 under merge-masking is treated as write-only although the masked-off lanes keep the old value" },
+  { "same-reg-hint-different-views", AV_HINT_VIEWS, false, "xchg/xor between AL and AH views of one virtual register gets the same-register hint of xchg r,r / xor r,r" },
   { "unreachable-predecessor", 0x80000000u, false, "an unreachable block that flows into a reachable loop crashes the liveness analysis" },
 };
 static const int kNProbes = sizeof(kProbes) / sizeof(kProbes[0]);
@@ -4215,6 +4217,32 @@ static Program build_probe(const std::string& name) {
     Op q; q.opc = O_VALU; q.sub = VA_PAND; q.w = 16; q.d = y2; q.a = y2; q.s = SR(y2); b.ops().push_back(q);
     b.call0();
     b.finish(-1);
+    return b.P;
+  }
+  if (name == "vpternlog-merge-masked") {
+    ProbeBuilder b(MODE_AVX512);
+    b.P.phys_k = 1;
+    int v = b.val(KIND_V, 64), v2 = b.val(KIND_V, 64), t = b.val(KIND_G, 4, false);
+    b.load(v, 0); b.load(v2, 64);
+    b.call0();
+    { Op o; o.opc = O_MOV; o.w = 4; o.d = t; o.s = SI(0xFF); b.ops().push_back(o); }
+    { Op o; o.opc = O_VTERN; o.w = 64; o.d = v; o.a = v; o.s = SR(v); o.imm = 0xFF; o.cc = 1; o.b = t; b.ops().push_back(o); }
+    { Op o; o.opc = O_VTERN; o.w = 64; o.d = v2; o.a = v2; o.s = SR(v2); o.imm = 0x00; o.cc = 1; o.b = t; b.ops().push_back(o); }
+    { Op st; st.opc = O_VSTORE; st.w = 64; st.a = v; st.s2 = SM(ProbeBuilder::M(128)); b.ops().push_back(st); }
+    b.finish(-1);
+    return b.P;
+  }
+  if (name == "same-reg-hint-different-views") {
+    ProbeBuilder b;
+    int v1 = b.val(KIND_G, 4), v2 = b.val(KIND_G, 4), v3 = b.val(KIND_G, 4);
+    b.load(v1, 0); b.load(v2, 8); b.load(v3, 16);
+    b.call0();
+    { Op st; st.opc = O_STORE; st.w = 4; st.s = SR(v1); st.s2 = SM(ProbeBuilder::M(32)); b.ops().push_back(st); }
+    { Op o; o.opc = O_HI8; o.w = 1; o.sub = 4; o.d = v1; b.ops().push_back(o); }             // xchg v1.r8(), v1.r8_hi()
+    { Op o; o.opc = O_HI8; o.w = 1; o.sub = 5; o.d = v2; o.a = v2; b.ops().push_back(o); }   // xor v2.r8(), v2.r8_hi()
+    { Op o; o.opc = O_HI8; o.w = 1; o.sub = 6; o.d = v3; o.a = v3; b.ops().push_back(o); }   // xor v3.r8_hi(), v3.r8()
+    b.call0();
+    b.finish(v1);
     return b.P;
   }
   // unreachable-predecessor
